@@ -11,7 +11,10 @@ P = lc.P
 
 ID = 'C14'
 LEAN_MODULE = 'Proofs.C14'
-THEOREMS = []
+THEOREMS = ['Fsic.C14.' + n for n in [
+    'scan_render_go', 'scan_render', 'layout_invariance_scan', 'termsOf_congr', 'layout_invariance_terms',
+    'explicit_zero', 'split_concat_lines', 'split_concat_error', 'split_concat', 'blank_and_comment_lines_neutral',
+    'normaliseWs_idempotent']]
 RULE = ('random C01-grammar programs (six generator configurations incl. verbatim fragments, named periods, LHS '
         'offsets, fenced blocks) and the exhaustive small-statement tier; each under every single transformation of '
         'the layout catalogue (tight, wide, spaces inside braces / angle brackets / index brackets, explicit [0], '
@@ -291,7 +294,7 @@ def run(ctx, rep):
     quick = ctx.tier == 'quick'
     oo = ctx.oracle_only
     tasks = []
-    n_prog = (800 if quick else 12000) * ctx.scale
+    n_prog = (600 if quick else 12000) * ctx.scale
     per = 20
     for first in range(0, n_prog, per):
         tasks.append(('c14:programs', (f'{ctx.seed}:c14', first, min(per, n_prog - first), 3 if quick else 6, oo)))
